@@ -12,6 +12,8 @@ NCPU = build.NCPU
 
 RC_TARGET = ("qsx", "pbt_main.cpp", "rc")
 FZ_TARGET = ("qsx_fuzz", "fz_main.cpp", "fuzz")
+# for smoke-testing a tier in less time (not used by the registered commands): scales every time budget
+BUDGET_SCALE = float(os.environ.get("VERIF_BUDGET_SCALE", "1") or "1")
 
 
 def log(msg):
@@ -219,7 +221,7 @@ def do_run(prop, tier, seed):
                     out = os.path.join(scratch, "stats.%d.%d.json" % (ri, s))
                     cmd = [exes[fl], "run", "--prop", prop, "--variant", run.get("variant", ""), "--seed", str(sd),
                            "--cases", str(max(1, cfg["cases"] // shards)), "--size", str(cfg.get("size", 100)),
-                           "--out", out, "--replays", REPLAYS, "--budget", str(cfg.get("budget", 120))]
+                           "--out", out, "--replays", REPLAYS, "--budget", str(max(5, int(cfg.get("budget", 120) * BUDGET_SCALE)))]
                     jobs.append((run, cmd, out, cfg))
 
         fuzzjobs = []
@@ -254,7 +256,7 @@ def do_run(prop, tier, seed):
             e2["QSX_FUZZ_STATS"] = statf
             e2["ASAN_OPTIONS"] = e2.get("ASAN_OPTIONS", "").replace("detect_leaks=1", "detect_leaks=0")
             dct = os.path.join(VERIF, "dict", ("mps" if target == "mps" else ("bas" if target == "bas" else "lp")) + ".dict")
-            cmd = [fuzz_exe, "-seed=%d" % sd, "-max_total_time=%d" % cfg["time"], "-max_len=%d" % cfg.get("max_len", 65536),
+            cmd = [fuzz_exe, "-seed=%d" % sd, "-max_total_time=%d" % max(5, int(cfg["time"] * BUDGET_SCALE)), "-max_len=%d" % cfg.get("max_len", 65536),
                    "-timeout=25", "-rss_limit_mb=4096", "-artifact_prefix=" + adir + "/", "-print_final_stats=1",
                    "-detect_leaks=0", "-dict=" + dct, "-len_control=50", cdir]
             try:
